@@ -40,6 +40,7 @@ Step(e) ==
     \/ e.ev = "fields"      /\ AFields(e)
     \/ e.ev = "dict"        /\ ADict(e)
     \/ e.ev = "contains"    /\ AContains(e)
+    \/ e.ev = "dict_close"  /\ ADictClose(e)
     \/ e.ev = "pl_open"     /\ APlOpen(e)
     \/ e.ev = "pl_count"    /\ APlCount(e)
     \/ e.ev = "it_open"     /\ AItOpen(e)
